@@ -20,6 +20,7 @@ func init() {
 
 func ruleInput(c *Ctx) {
 	finishFresh(c)
+	varOperandMatchedRaw(c)
 	sp := specialFieldMap(c)
 	nr, fnr := "", ""
 	if f := sp["V_NR"]; len(f) > 0 {
